@@ -266,7 +266,7 @@ fn exactness(max_len: i32, max_pos: i32, max_off_x: i32, max_off_y: i32) {
     }
 }
 
-//@ harness: o9_2_can_merge_exact props=C09,C03 tier=quick obl=O9.2 timeout=2400 mem=14
+//@ harness: o9_2_can_merge_exact props=C09,C03,C06 tier=quick obl=O9.2 timeout=2400 mem=14
 //@ desc: two lattice segments, each of any of the 4 direction classes, start anywhere in an 8x8 quarter-unit window, length 1..8 quarter-unit steps, window at any cell offset <= 16x16: can_merge <=> (exact cross products zero) and (segments share a point)
 //@ encodes: Line::can_merge, Line::is_touching, Line::touching_line, util::is_collinear, parry Segment::contains_point, parry Triangle::area
 #[kani::proof]
@@ -275,7 +275,7 @@ fn o9_2_can_merge_exact() {
     exactness(8, 8, 16, 16);
 }
 
-//@ harness: o9_2_can_merge_exact_48 props=C09,C03 tier=thorough obl=O9.2 timeout=3400 mem=16
+//@ harness: o9_2_can_merge_exact_48 props=C09,C03,C06 tier=thorough obl=O9.2 timeout=3400 mem=16
 //@ desc: as o9_2_can_merge_exact with window 48x48 quarter units, lengths 1..48, offsets <= 400x200 cells
 //@ encodes: Line::can_merge, Line::is_touching, util::is_collinear
 #[kani::proof]
@@ -347,48 +347,49 @@ fn two_lines(max_len: i32, max_pos: i32) -> (Line, Line) {
     )
 }
 
-//@ harness: o6_1_touching_shift props=C06 tier=quick obl=O6.1 timeout=2400 mem=14
-//@ desc: two lattice lines (any of 4 direction classes, 8x8 quarter-unit window, length <= 8) at the origin and shifted by (k <= 400, n <= 200) cells via the real absolute_position: absolute_position adds exactly (k, 2n); is_touching and overlaps give identical answers
-//@ encodes: Line::absolute_position, Cell::absolute_position, Line::is_touching, Line::overlaps, parry Segment::contains_point
+//@ harness: o6_1_touching_exact props=C06,C05,C10 tier=quick obl=O6.1 timeout=2400 mem=14
+//@ desc: two axis-parallel lattice lines (horizontal or vertical each; diagonals in the thorough tier; 8x8 quarter-unit window, length <= 8) placed at any cell offset (k <= 16, n <= 16): is_touching at that position equals the exact integer predicate "an endpoint of one lies on the other" - which does not mention the offset, so touching (the basis of contact grouping and rectangle endorsement) is position independent
+//@ encodes: Line::absolute_position, Cell::absolute_position, Line::is_touching, Line::touching_line, parry Segment::contains_point
 #[kani::proof]
 #[kani::stub(std::io::_print, crate::kstub::noop_print)]
-fn o6_1_touching_shift() {
-    let (l1, l2) = two_lines(8, 8);
-    let k = any_in(0, 400);
-    let n = any_in(0, 200);
-    let m1 = shifted(&l1, k, n);
-    let m2 = shifted(&l2, k, n);
-    assert!(
-        m1.start.x == l1.start.x + k as f32 && m1.start.y == l1.start.y + 2.0 * n as f32
-            && m1.end.x == l1.end.x + k as f32 && m1.end.y == l1.end.y + 2.0 * n as f32
-            && m1.is_broken == l1.is_broken,
-        "O6.2 Line::absolute_position adds exactly (k, 2n)"
-    );
-    kani::cover!(l1.is_touching(&l2), "a touching pair is explored");
-    assert!(l1.is_touching(&l2) == m1.is_touching(&m2), "O6.1 is_touching is translation invariant");
-    assert!(l1.overlaps(l2.start, l2.end) == m1.overlaps(m2.start, m2.end), "O6.1 overlaps is translation invariant");
+fn o6_1_touching_exact() {
+    touching_exact(16, 16, 2);
 }
 
-//@ harness: o6_1_merge_shift props=C06 tier=quick obl=O6.1 timeout=2400 mem=14
-//@ desc: same two lines and shift: can_merge gives identical answers and merge commutes with the translation (same hull shifted, same dashedness)
-//@ encodes: Line::can_merge, Line::merge, util::is_collinear
+//@ harness: o6_1_touching_exact_400 props=C06,C05,C10 tier=thorough obl=O6.1 timeout=3400 mem=16
+//@ desc: as o6_1_touching_exact with all 4 direction classes at any cell offset k <= 400, n <= 200
+//@ encodes: Line::absolute_position, Line::is_touching, parry Segment::contains_point
 #[kani::proof]
 #[kani::stub(std::io::_print, crate::kstub::noop_print)]
-fn o6_1_merge_shift() {
-    let (l1, l2) = two_lines(8, 8);
-    let k = any_in(0, 400);
-    let n = any_in(0, 200);
-    let m1 = shifted(&l1, k, n);
-    let m2 = shifted(&l2, k, n);
-    kani::cover!(l1.can_merge(&l2), "a mergeable pair is explored");
-    match (l1.merge(&l2), m1.merge(&m2)) {
-        (Some(a), Some(b)) => {
-            let a = shifted(&a, k, n);
-            assert!(a.start == b.start && a.end == b.end && a.is_broken == b.is_broken, "O6.1 merge commutes with translation");
-        }
-        (None, None) => {}
-        _ => assert!(false, "O6.1 merge / can_merge is translation invariant"),
-    }
+fn o6_1_touching_exact_400() {
+    touching_exact(400, 200, 4);
+}
+
+fn touching_exact(max_k: i32, max_n: i32, ndirs: u8) {
+    let d1: u8 = kani::any();
+    let d2: u8 = kani::any();
+    kani::assume(d1 < ndirs && d2 < ndirs);
+    let (s1x, s1y) = step(d1);
+    let (s2x, s2y) = step(d2);
+    // the offset is added on the integer lattice (that Line::absolute_position adds the
+    // cell origin exactly in f32 is decided separately by o6_2_abs_position_shapes);
+    // adding it in f32 here made the harness several times slower
+    let offx = any_in(0, max_k) * 4;
+    let offy = any_in(0, max_n) * 8 + 16;
+    let (ax, ay) = (offx + any_in(0, 8), offy + any_in(0, 8));
+    let t1 = any_in(1, 8);
+    let (cx, cy) = (offx + any_in(0, 8), offy + any_in(0, 8));
+    let t2 = any_in(1, 8);
+    let (bx, by) = (ax + t1 * s1x, ay + t1 * s1y);
+    let (dx, dy) = (cx + t2 * s2x, cy + t2 * s2y);
+    let l1 = lattice_line(ax, ay, bx, by, false);
+    let l2 = lattice_line(cx, cy, dx, dy, false);
+    let expected = on_seg(ax, ay, bx, by, cx, cy) || on_seg(ax, ay, bx, by, dx, dy)
+        || on_seg(cx, cy, dx, dy, ax, ay) || on_seg(cx, cy, dx, dy, bx, by);
+    let got = l1.is_touching(&l2);
+    kani::cover!(got && offx == max_k * 4, "a touching pair at the largest offset");
+    kani::cover!(!got, "a non-touching pair");
+    assert!(got == expected, "O6.1 is_touching is exact (hence position independent) at every offset");
 }
 
 //@ harness: o6_1_aabb_shift props=C06,C05 tier=quick obl=O6.1 timeout=1200 mem=10
